@@ -237,7 +237,7 @@ pub fn worker(o: WorkerOpts) -> i32 {
     use std::sync::Arc;
     let current = Arc::new(AtomicU64::new(u64::MAX));
     // CPU-time watchdog: a run that burns more than 20 s of CPU is a non-termination verdict.
-    {
+    if !cfg!(miri) {
         let current = current.clone();
         std::thread::spawn(move || {
             let mut last = (u64::MAX, 0.0f64);
